@@ -46,10 +46,20 @@ static int cpu_limit(const Plan &p)
 	for (auto &o : p.ops) if (o.name.compare(0, 5, "sweep") == 0 || o.name.compare(0, 4, "huge") == 0) return 900;	// exhaustive sweeps are legitimately long
 	return 30;
 }
+// ... and a wall-clock backstop ten times as long for a run that is blocked without using CPU (a thread waiting in the
+// kernel on something the scheduler does not own); runs take milliseconds, so machine load cannot trip it
+static void on_wall_limit(int)
+{
+	static const char msg[] = "SCHED-VERDICT HANG run made no progress within its wall-clock limit (blocked outside the scheduler)\n";
+	(void)!write(1, msg, sizeof msg - 1);
+	_exit(80);
+}
 static void watchdog(int seconds)
 {
 	struct itimerval it = { { 0, 0 }, { seconds, 0 } };
 	setitimer(ITIMER_PROF, &it, nullptr);
+	struct itimerval wall = { { 0, 0 }, { seconds * 10, 0 } };
+	setitimer(ITIMER_REAL, &wall, nullptr);
 }
 
 static const char *arg(int argc, char **argv, const char *name, const char *def)
@@ -72,6 +82,7 @@ int main(int argc, char **argv)
 	}
 	setvbuf(stdout, nullptr, _IOLBF, 0);
 	signal(SIGPROF, on_cpu_limit);
+	signal(SIGALRM, on_wall_limit);
 	if (!mfmt::selftest()) { fprintf(stderr, "INFRA-ERROR independent codec self-test failed\n"); return 2; }
 	std::string cmd = argv[1];
 	if (cmd == "replay") {
